@@ -37,7 +37,7 @@ R08.7 per-mock template-data options are read by the built-in templates from the
 	ruleNoSharing(c, r, cp)
 	ruleMergeOrder(c, r, cp)
 	ruleLayering(c, r, cp)
-	ruleConsumers(c, r)
+	ruleConsumers(c, r, "R08.6", nil)
 	ruleR075(c, r, "R08.6")
 	// R08.7
 	for _, name := range []string{"testify", "matryer"} {
@@ -487,12 +487,12 @@ func ruleLayering(c *Ctx, r *Repo, cp *packages.Package) {
 }
 
 // ruleConsumers: R08.6, which level each per-file consumer in Run reads.
-func ruleConsumers(c *Ctx, r *Repo) {
+func ruleConsumers(c *Ctx, r *Repo, rule string, only map[string]bool) {
 	cmdp := r.Pkg("internal/cmd")
 	info := cmdp.TypesInfo
 	run := FuncDecl(cmdp, "RootApp.Run")
 	if run == nil {
-		c.Fail("R08.6", "Run|missing", "internal/cmd/mockery.go", "RootApp.Run not found")
+		c.Fail(rule, "Run|missing", "internal/cmd/mockery.go", "RootApp.Run not found")
 		return
 	}
 	var call *ast.CallExpr
@@ -503,7 +503,7 @@ func ruleConsumers(c *Ctx, r *Repo) {
 		return true
 	})
 	if call == nil {
-		c.Fail("R08.6", "Run|generator-call", r.Pos(run.Pos()), "Run does not call NewTemplateGenerator")
+		c.Fail(rule, "Run|generator-call", r.Pos(run.Pos()), "Run does not call NewTemplateGenerator")
 		return
 	}
 	fn := calleeFunc(info, call)
@@ -523,13 +523,16 @@ func ruleConsumers(c *Ctx, r *Repo) {
 	params := map[string]string{"templateName": "template", "templateSchema": "template-schema", "requireSchemaExists": "require-template-schema-exists", "formatter": "formatter"}
 	for i := 0; i < sig.Params().Len() && i < len(call.Args); i++ {
 		label, ok := params[sig.Params().At(i).Name()]
-		if !ok {
+		if !ok || only != nil && !only[label] {
 			continue
 		}
 		lv := level(call.Args[i])
-		c.Check(lv == "file", "R08.6", "Run|consumer-level|"+label+"|"+lv, r.Pos(call.Args[i].Pos()), label+" read from the configuration of the mocks in the file", fmt.Sprintf("%s handed to the generator is read at the %s level (%s): a value set on the interface or configs entry of the mocks in that file is ignored", label, lv, types.ExprString(call.Args[i])))
+		c.Check(lv == "file", rule, "Run|consumer-level|"+label+"|"+lv, r.Pos(call.Args[i].Pos()), label+" read from the configuration of the mocks in the file", fmt.Sprintf("%s handed to the generator is read at the %s level (%s): a value set on the interface or configs entry of the mocks in that file is ignored", label, lv, types.ExprString(call.Args[i])))
 	}
 	// force-file-write in the overwrite guard
+	if only != nil && !only["force-file-write"] {
+		return
+	}
 	found := false
 	ast.Inspect(run.Body, func(n ast.Node) bool {
 		ifs, ok := n.(*ast.IfStmt)
@@ -547,11 +550,11 @@ func ruleConsumers(c *Ctx, r *Repo) {
 				return true
 			})
 			lv := level(operand)
-			c.Check(lv == "file", "R08.6", "Run|consumer-level|force-file-write|"+lv, r.Pos(ifs.Pos()), "force-file-write read from the configuration of the mocks in the file", fmt.Sprintf("force-file-write in the overwrite guard is read at the %s level (%s)", lv, types.ExprString(operand)))
+			c.Check(lv == "file", rule, "Run|consumer-level|force-file-write|"+lv, r.Pos(ifs.Pos()), "force-file-write read from the configuration of the mocks in the file", fmt.Sprintf("force-file-write in the overwrite guard is read at the %s level (%s)", lv, types.ExprString(operand)))
 		}
 		return true
 	})
 	if !found {
-		c.Fail("R08.6", "Run|overwrite-guard", r.Pos(run.Pos()), "no overwrite guard consulting force-file-write found")
+		c.Fail(rule, "Run|overwrite-guard", r.Pos(run.Pos()), "no overwrite guard consulting force-file-write found")
 	}
 }
